@@ -354,11 +354,20 @@ func runC16(r *Report) {
 		gb := p.Func("protocol", "GetBuffer")
 		if r.Anchor("R4", "protocol.GetBuffer", gb != nil) {
 			n := 0
-			for _, ci := range callsIn(su) {
-				if ci.Common().StaticCallee() != gb {
-					continue
+			var gbCalls []ssa.CallInstruction
+			for _, f := range p.SrcFuncs() {
+				// every buffer the upload path sizes: scheduleUpload, or a helper factored out of it
+				if relPkg(f) == "peer" {
+					for _, ci := range callsIn(f) {
+						if ci.Common().StaticCallee() == gb {
+							gbCalls = append(gbCalls, ci)
+						}
+					}
 				}
+			}
+			for _, ci := range gbCalls {
 				n++
+				r.Fn(ci.Parent())
 				arg := ci.Common().Args[0]
 				in := ci.(ssa.Instruction)
 				ok, why := t.boundedAt(arg, in.Block(), 0)
